@@ -6,6 +6,7 @@ package main
 // (nil guards, names and order of the chain).  Output: Gen/GenMw.v.
 
 import (
+	"flag"
 	"fmt"
 	"go/ast"
 	"go/parser"
@@ -115,9 +116,24 @@ func mwExtras(repo string, files map[string]*ast.File) (map[string][]matched, []
 	const out = "GenMw"
 	var errs []string
 	res := map[string][]matched{}
+	// on a lost anchor keep the last generated definition, marked stale (as main.go does
+	// for plain anchors), so that the model still compiles and the search for a failing
+	// input can run
+	stale := func(name string) {
+		dir := ""
+		if f := flag.Lookup("out"); f != nil {
+			dir = f.Value.String()
+		}
+		if old := oldDefinition(filepath.Join(dir, out+".v"), name); old != "" {
+			res[out] = append(res[out], matched{name, "handler.go", "", 0,
+				"STALE: anchor no longer found in the source; last generated definition kept", old})
+		}
+	}
 	add := func(name string, f func() matched) {
 		if m, ok := mwGuarded(name, &errs, f); ok {
 			res[out] = append(res[out], m)
+		} else {
+			stale(name)
 		}
 	}
 	// the predicate handed to slices.ContainsFunc in MaxLimitMiddleware (REQ and COUNT branch)
@@ -211,6 +227,10 @@ func mwExtras(repo string, files map[string]*ast.File) (map[string][]matched, []
 		return matched{}
 	}); ok {
 		res[out] = append(res[out], chain...)
+	} else {
+		for _, n := range []string{"g_nip11_outer_identity", "g_nip11_inner_identity", "g_nip11_chain"} {
+			stale(n)
+		}
 	}
 	return res, errs
 }
